@@ -272,21 +272,19 @@ Section Resolve.
     end.
 End Resolve.
 
-(* Which behaviour the DECIDING model has. false = the unchanged code (unguarded recursion).
-   After the fix is applied to /repo the lead sets this to true (and marks the finding fixed). *)
-Definition c15_fixed_variant : bool := true.
-
 (* what the deciding model answers for one resolution: Ok r, or OutOfFuel = the Go process dies of stack overflow.
-   Unfixed: decided by the detector (sound and complete for non-termination of `resolve`, ClassesElem.v). *)
-Definition resolve_model (leaf : ty -> option ty) (tm : tmap) (t : ty) (f : N) : Res (option ty) :=
-  if c15_fixed_variant then resolve_fx leaf tm (fuel_of tm) [] t f
+   fa = false: the code before fix 83efc56 (unguarded recursion), decided by the detector (sound and complete for
+               non-termination of `resolve`, ClassesElem.v);
+   fa = true : the repaired code (visited set). *)
+Definition resolve_model_v (fa : bool) (leaf : ty -> option ty) (tm : tmap) (t : ty) (f : N) : Res (option ty) :=
+  if fa then resolve_fx leaf tm (fuel_of tm) [] t f
   else match detect leaf tm (fuel_of tm) [] t f with
        | DDone r => Ok r
        | DDiverge => OutOfFuel
        | DNoFuel => Fault Reentry      (* never: detect_total *)
        end.
 
-(* class predicate of the known finding: the unchanged code recurses for ever on this resolution *)
+(* class predicate of the (fixed) finding: the code before the fix recurses for ever on this resolution *)
 Definition cyclic_alias (leaf : ty -> option ty) (tm : tmap) (t : ty) (f : N) : bool :=
   match detect leaf tm (fuel_of tm) [] t f with DDiverge => true | _ => false end.
 
@@ -306,72 +304,76 @@ Fixpoint first_with (o : list def) (k : name) : option (def * field) :=
   | d :: r => match field_of d k with Some fl => Some (d, fl) | None => first_with r k end
   end.
 
+(* the indexing part of symbolHasSubKey: array element first, then table value *)
+Definition index_step_v (fa : bool) (tm : tmap) (t : ty) (f l : N) : Res (option sym) :=
+  do a <- resolve_model_v fa leaf_arr tm t f;
+  match a with
+  | Some e => Ok (Some (e, f, l))
+  | None => do v <- resolve_model_v fa leaf_val tm t f;
+            match v with Some e => Ok (Some (e, f, l)) | None => Ok None end
+  end.
+
 (* key = Some k: `.k` (a simple string); key = None: `[1]`.  Order in the code: class member, then array
-   element, then table value. *)
-Definition sub_key (tm : tmap) (s : sym) (key : option name) : Res (option sym) :=
+   element, then table value.  (The class lookup is the deployed one, class_list.) *)
+Definition sub_key_v (fa : bool) (tm : tmap) (s : sym) (key : option name) : Res (option sym) :=
   let '(t, f, l) := s in
   do o <- match key with Some _ => class_list (fuel_of tm) tm t f l | None => Ok [] end;
   match match key with Some k => first_with o k | None => None end with
   | Some (d, fl) => Ok (Some (f_ty fl, d_file d, d_line d))
-  | None =>
-      do a <- resolve_model leaf_arr tm t f;
-      match a with
-      | Some e => Ok (Some (e, f, l))
-      | None => do v <- resolve_model leaf_val tm t f;
-                match v with Some e => Ok (Some (e, f, l)) | None => Ok None end
-      end
+  | None => index_step_v fa tm t f l
   end.
 
-Fixpoint follow (tm : tmap) (s : sym) (path : list (option name)) : Res (option sym) :=
+Fixpoint follow_v (fa : bool) (tm : tmap) (s : sym) (path : list (option name)) {struct path} : Res (option sym) :=
   match path with
   | [] => Ok (Some s)
-  | k :: rest => do r <- sub_key tm s k;
-                 match r with Some s' => follow tm s' rest | None => Ok None end
+  | k :: rest => do r <- sub_key_v fa tm s k;
+                 match r with Some s' => follow_v fa tm s' rest | None => Ok None end
   end.
 
 (* member names offered after `v<path>.` *)
-Definition complete_at (tm : tmap) (s : sym) (path : list (option name)) : Res (list name) :=
-  do r <- follow tm s path;
+Definition complete_at_v (fa : bool) (tm : tmap) (s : sym) (path : list (option name)) : Res (list name) :=
+  do r <- follow_v fa tm s path;
   match r with
   | Some (t, f, l) => do o <- class_list (fuel_of tm) tm t f l; Ok (member_names o)
   | None => Ok []
   end.
 
 (* go-to-definition on `v<path>.k`: the ---@field line of the first class that has k *)
-Definition define_at (tm : tmap) (s : sym) (path : list (option name)) (k : name) : Res (option (N * N)) :=
-  do r <- follow tm s path;
+Definition define_at_v (fa : bool) (tm : tmap) (s : sym) (path : list (option name)) (k : name) : Res (option (N * N)) :=
+  do r <- follow_v fa tm s path;
   match r with
   | Some (t, f, l) =>
       do o <- class_list (fuel_of tm) tm t f l;
       match first_with o k with
       | Some (d, fl) => Ok (Some (d_file d, f_line fl))
       | None =>
-          (* not a member: symbolHasSubKey goes on to the element resolutions (may recurse for ever);
-             the result is then not a field line *)
-          do a <- resolve_model leaf_arr tm t f;
-          match a with
-          | Some _ => Ok None
-          | None => do v <- resolve_model leaf_val tm t f; Ok None
-          end
+          (* not a member: symbolHasSubKey goes on to the element resolutions (before fix 83efc56 they may recurse
+             for ever); the result is then not a field line *)
+          do a <- index_step_v fa tm t f l; Ok None
       end
   | None => Ok None
   end.
 
 (* for-loop variables (getForCycleAnnotateType): `for k, x in pairs(v)` / `ipairs(v)` *)
-Definition for_value (tm : tmap) (s : sym) : Res (option sym) :=
+Definition for_value_v (fa : bool) (tm : tmap) (s : sym) : Res (option sym) :=
+  let '(t, f, l) := s in index_step_v fa tm t f l.
+
+Definition for_pairs_key_v (fa : bool) (tm : tmap) (s : sym) : Res (option sym) :=
   let '(t, f, l) := s in
-  do a <- resolve_model leaf_arr tm t f;
+  do a <- resolve_model_v fa leaf_arr tm t f;
   match a with
-  | Some e => Ok (Some (e, f, l))
-  | None => do v <- resolve_model leaf_val tm t f;
+  | Some _ => Ok (Some (TName 3 (* "number": never defined by the generators *), f, l))
+  | None => do v <- resolve_model_v fa leaf_key tm t f;
             match v with Some e => Ok (Some (e, f, l)) | None => Ok None end
   end.
 
-Definition for_pairs_key (tm : tmap) (s : sym) : Res (option sym) :=
-  let '(t, f, l) := s in
-  do a <- resolve_model leaf_arr tm t f;
-  match a with
-  | Some _ => Ok (Some (TName 3 (* "number": never defined by the generators *), f, l))
-  | None => do v <- resolve_model leaf_key tm t f;
-            match v with Some e => Ok (Some (e, f, l)) | None => Ok None end
-  end.
+(* Which alias resolution the DECIDING model has: true = the repaired code (fix 83efc56 in /repo). *)
+Definition c15_fixed_variant : bool := true.
+
+Definition resolve_model := resolve_model_v c15_fixed_variant.
+Definition sub_key := sub_key_v c15_fixed_variant.
+Definition follow := follow_v c15_fixed_variant.
+Definition complete_at := complete_at_v c15_fixed_variant.
+Definition define_at := define_at_v c15_fixed_variant.
+Definition for_value := for_value_v c15_fixed_variant.
+Definition for_pairs_key := for_pairs_key_v c15_fixed_variant.
